@@ -13,6 +13,28 @@ def classify(v, svg, opt, o1, adoc, rec):
             c = lambda t: etree.tostring(etree.fromstring(t.encode()), method="c14n")
             if c(r2[1]) == c(o1):
                 key += "/attribute-order-on-passed-through-text"
+    if v == "BAD:pass2-differs" and o1 and key == "C07/pass2-differs":
+        # the one history of the known defs-order finding: pass 1 leaves the gradients of defs in an order
+        # that is not the insertion procedure's own fixpoint, pass 2 sorts them (ascending ids) and
+        # pass 3 changes nothing more; apart from that order the documents are identical
+        from lxml import etree
+        from . import doc as D
+        kw = dict(ndigits=opt[0], allow_text=bool(opt[1]), drop_unsupported=bool(opt[2]))
+        r2 = D.convert(o1, **kw)
+        r3 = D.convert(r2[1], **kw) if r2[0] == "ok" else ("exc",)
+        if r2[0] == "ok" and r3[0] == "ok" and r3[1] == r2[1]:
+            def split(t):
+                root = etree.fromstring(t.encode())
+                defs = root[0]
+                ids = [g.get("id") for g in defs]
+                grads = sorted(etree.tostring(g, method="c14n") for g in defs)
+                for g in list(defs):
+                    defs.remove(g)
+                return ids, grads, etree.tostring(root, method="c14n")
+            i1, g1, b1 = split(o1)
+            i2, g2, b2 = split(r2[1])
+            if g1 == g2 and b1 == b2 and i1 != i2 and i2 == sorted(i2):
+                key += "/defs-order-not-a-fixpoint-of-insertion"
     return key
 
 
